@@ -936,17 +936,6 @@ package crypto
 //@ assigns *res
 //@ ensures *res == e2Neg(old(*a))
 
-//@ cfunc map_to_G1 nobody
-//@ requires h != nil && (hash_len == 128 ==> valid(hash, 128))
-//@ assigns *h
-//@ ensures (result == VALID) == (hash_len == 128) && (result == VALID || result == INVALID)
-//@ ensures hash_len == 128 ==> *h == old(h2cb(hash[0:128]))
-
-//@ cfunc Fp12_multi_pairing nobody
-//@ requires res != nil && len >= 1 && valid(p, len) && valid(q, len)
-//@ assigns *res
-//@ ensures len == 2 ==> *res == mp2(old(p[0]), old(q[0]), old(p[1]), old(q[1]))
-
 //@ cfunc Fp12_is_one nobody pure
 //@ requires a != nil
 //@ assigns nothing
@@ -1594,3 +1583,72 @@ package crypto
 //@ loop 1 invariant 0 <= i && i <= len
 //@ loop 1 invariant [partial-sum] *sum == e1sum(y, i)
 //@ loop 1 assigns *sum, i
+
+// =============================================================================================
+// Aggregate verification over many messages (C02). The C functions are specified exactly: the verdict is the test
+// against one of the product of pairings e(s, -g2) * prod_g e(P_g, Q_g) over the groups g the caller formed, where
+// (per distinct message) P_g = hash-to-curve of message g, Q_g = sum of the keys of group g, or
+// (per distinct key)     P_g = sum of the hash-to-curve images of the messages of key g, Q_g = key g.
+// mpairs(P, Q, n) is the left fold of gtMul over gtPair(P[k], Q[k]); Fp12_multi_pairing (BLST glue) is assumed to compute it.
+
+//@ pred h2cOf(b) = h2cb(b[0:128])
+
+//@ cfunc map_to_G1 nobody
+//@ requires h != nil && (hash_len == 128 ==> valid(hash, 128))
+//@ assigns *h
+//@ ensures (result == VALID) == (hash_len == 128) && (result == VALID || result == INVALID)
+//@ ensures hash_len == 128 ==> *h == old(h2cb(hash[0:128]))
+//@ ensures hash_len == 128 ==> *h == old(h2cAt(hash))
+
+//@ cfunc Fp12_multi_pairing nobody
+//@ requires res != nil && len >= 1 && valid(p, len) && valid(q, len)
+//@ assigns *res
+//@ ensures len == 2 ==> *res == mp2(old(p[0]), old(q[0]), old(p[1]), old(q[1]))
+//@ ensures [product-of-the-pairings] *res == old(mpairs(p, q, len))
+
+// the two sequences of pairing operands, per distinct message: element 0 is (signature, -g2), element g+1 is
+// (hash-to-curve of message g, sum of the keys of message g); the keys of message g start at index isum(pks_per_hash, g)
+//@ pred pdmG1(sig, hashes) = seqof(k, ite(k == 0, g1pt(sig), h2cAt(&hashes[128*(k-1)])))
+//@ pred pdmG2(pks_per_hash, pks) = seqof(k, ite(k == 0, negG2(), e2sum(&pks[isum(pks_per_hash, k-1)], pks_per_hash[k-1])))
+
+//@ cfunc bls_verifyPerDistinctMessage props C02 C09
+//@ requires 1 <= nb_hashes && nb_hashes <= 16777215 && valid(sig, 48) && valid(len_hashes, nb_hashes) && valid(pks_per_hash, nb_hashes)
+//@ requires [every-hash-has-128-bytes] forall(k, 0, nb_hashes, len_hashes[k] == 128)
+//@ requires valid(hashes, 128*nb_hashes)
+//@ requires [key-counts] forall(k, 0, nb_hashes, 1 <= pks_per_hash[k] && pks_per_hash[k] <= 2147483647) && isum(pks_per_hash, nb_hashes) <= 2147483647 && valid(pks, isum(pks_per_hash, nb_hashes))
+//@ assigns nothing
+//@ ensures [never-undefined] result == VALID || result == INVALID
+//@ ensures [accepts-exactly] (result == VALID) == old(g1canon(sig) && inG1(g1pt(sig)) && fp12IsOne(mpairs(pdmG1(sig, hashes), pdmG2(pks_per_hash, pks), nb_hashes + 1)))
+//@ loop 1 invariant [range] 1 <= i && i <= nb_hashes + 1 && offset == 128*(i-1)
+//@ loop 1 invariant [hashed-so-far] forall(k, 1, i, ptAt(elemsG1, k) == at(old(pdmG1(sig, hashes)), k))
+//@ loop 1 assigns elemsG1[1:nb_hashes+1], i, offset
+//@ loop 2 invariant [range] 1 <= i && i <= nb_hashes + 1 && offset == isum(pks_per_hash, i-1)
+//@ loop 2 invariant [next-group-ends-within-the-keys] i <= nb_hashes ==> isum(pks_per_hash, i) <= isum(pks_per_hash, nb_hashes)
+//@ loop 2 invariant [summed-so-far] forall(k, 1, i, ptAt(elemsG2, k) == at(old(pdmG2(pks_per_hash, pks)), k))
+//@ loop 2 assigns elemsG2[1:nb_hashes+1], i, offset
+
+// per distinct key: element 0 is (signature, -g2), element g+1 is (sum of the hash-to-curve images of the messages of key g, key g);
+// the messages of key g are the hashes_per_pk[g] consecutive 128-byte strings starting at string number isum(hashes_per_pk, g)
+//@ pred pdkG1(sig, hashes, hashes_per_pk) = seqof(k, ite(k == 0, g1pt(sig), e1sum(h2cSeqAt(&hashes[128*isum(hashes_per_pk, k-1)]), hashes_per_pk[k-1])))
+//@ pred pdkG2(pks) = seqof(k, ite(k == 0, negG2(), ptAt(pks, k-1)))
+
+//@ cfunc bls_verifyPerDistinctKey props C02 C09
+//@ requires 1 <= nb_pks && nb_pks <= 16777215 && valid(sig, 48) && valid(pks, nb_pks) && valid(hashes_per_pk, nb_pks)
+//@ requires [hash-counts] forall(k, 0, nb_pks, 1 <= hashes_per_pk[k] && hashes_per_pk[k] <= 16777215) && isum(hashes_per_pk, nb_pks) <= 16777215
+//@ requires valid(len_hashes, isum(hashes_per_pk, nb_pks)) && valid(hashes, 128*isum(hashes_per_pk, nb_pks))
+//@ requires [every-hash-has-128-bytes] forall(k, 0, isum(hashes_per_pk, nb_pks), len_hashes[k] == 128)
+//@ assigns nothing
+//@ ensures [never-undefined] result == VALID || result == INVALID
+//@ ensures [accepts-exactly] (result == VALID) == old(g1canon(sig) && inG1(g1pt(sig)) && fp12IsOne(mpairs(pdkG1(sig, hashes, hashes_per_pk), pdkG2(pks), nb_pks + 1)))
+//@ loop 1 invariant [range] 1 <= i && i <= nb_pks + 1
+//@ loop 1 invariant [keys-copied-so-far] forall(k, 1, i, ptAt(elemsG2, k) == at(old(pdkG2(pks)), k))
+//@ loop 1 assigns elemsG2[1:nb_pks+1], i
+//@ loop 2 invariant [range] 1 <= i && i <= nb_pks && 1 <= tmp_hashes_size && tmp_hashes_size <= 16777215
+//@ loop 2 invariant [maximum-so-far] forall(k, 0, i, hashes_per_pk[k] <= tmp_hashes_size)
+//@ loop 3 invariant [range] 1 <= i && i <= nb_pks + 1 && index_offset == isum(hashes_per_pk, i-1) && data_offset == 128*index_offset
+//@ loop 3 invariant [next-group-ends-within-the-hashes] i <= nb_pks ==> isum(hashes_per_pk, i) <= isum(hashes_per_pk, nb_pks)
+//@ loop 3 invariant [summed-so-far] forall(k, 1, i, ptAt(elemsG1, k) == at(old(pdkG1(sig, hashes, hashes_per_pk)), k))
+//@ loop 3 assigns elemsG1[1:nb_pks+1], tmp_hashes[0:tmp_hashes_size], i, data_offset, index_offset
+//@ loop 4 invariant [range] 0 <= j && j <= hashes_per_pk[i-1] && index_offset == isum(hashes_per_pk, i-1) + j && data_offset == 128*index_offset
+//@ loop 4 invariant [hashed-so-far] forall(m, 0, j, ptAt(tmp_hashes, m) == at(h2cSeqAt(&hashes[128*isum(hashes_per_pk, i-1)]), m))
+//@ loop 4 assigns tmp_hashes[0:tmp_hashes_size], j, data_offset, index_offset
